@@ -1187,10 +1187,11 @@ func init() {
 			w.opDecom("ceth")
 			w.opSwap(w.users[2], "rowan", "cusdc", e18(1), big.NewInt(0))
 		}
-		// D5: a zero-unit provider is the only eligible provider of an asset with a funded bucket
-		{
+		// D5: a zero-unit provider is the only eligible provider of an asset with a funded bucket (both modes)
+		for _, dist := range []bool{false, true} {
 			w := newAmmWorld(rng, out, 3, -1)
 			w.fundAll()
+			w.setDistribute(dist)
 			w.opCreate(w.users[0], "cusdc", e18(1), e18(1000000))
 			w.opAdd(w.users[1], "cusdc", big.NewInt(0), big.NewInt(1)) // rounds to zero units
 			w.opBucket(w.users[0], "cusdc", e18(5))
